@@ -255,17 +255,93 @@ func boolReturn(want bool) func(*ssa.Return) bool {
 
 // immediateErrEdge: the matched edge leads *directly* (through blocks with a
 // single successor) to a bad return: the canonical "if bad { return err }".
-func edgeLeadsStraightTo(b *ssa.BasicBlock, isBad func(*ssa.Return) bool) bool {
-	for i := 0; i < 6; i++ {
+func edgeLeadsStraightTo(from *ssa.BasicBlock, si int, isBad func(*ssa.Return) bool) bool {
+	// boolean φs met on the way are resolved to the operand selected by the
+	// path walked, so "x := a || b; if x { return err }" is straight for a's edge
+	env := map[*ssa.Phi]ssa.Value{}
+	b := from.Succs[si]
+	idx := predIndex(b, from, si)
+	for i := 0; i < 12; i++ {
+		for _, ins := range b.Instrs {
+			phi, ok := ins.(*ssa.Phi)
+			if !ok {
+				break
+			}
+			if idx >= 0 && idx < len(phi.Edges) {
+				v := phi.Edges[idx]
+				if q, isPhi := v.(*ssa.Phi); isPhi {
+					if r, known := env[q]; known {
+						v = r
+					}
+				}
+				env[phi] = v
+			}
+		}
 		if r, ok := b.Instrs[len(b.Instrs)-1].(*ssa.Return); ok {
 			return isBad(r)
 		}
-		if len(b.Succs) != 1 {
+		next := 0
+		switch len(b.Succs) {
+		case 1:
+		case 2:
+			iff, ok := b.Instrs[len(b.Instrs)-1].(*ssa.If)
+			if !ok {
+				return false
+			}
+			cond, pos := normCond(iff.Cond, true)
+			phi, isPhi := cond.(*ssa.Phi)
+			if !isPhi {
+				return false
+			}
+			v, known := env[phi]
+			if !known {
+				return false
+			}
+			cb, isConst := constBool(v)
+			if !isConst {
+				return false
+			}
+			if cb != pos {
+				next = 1
+			}
+		default:
 			return false
 		}
-		b = b.Succs[0]
+		idx = predIndex(b.Succs[next], b, next)
+		b = b.Succs[next]
 	}
 	return false
+}
+
+// condLeaves: the non-constant values a boolean condition can be on some path
+// (the condition itself, or the operands of the φ it is), each with the
+// polarity under which the condition is true.
+func condLeaves(v ssa.Value) []condRes {
+	var out []condRes
+	seen := map[ssa.Value]bool{}
+	var walk func(v ssa.Value, flip bool, depth int)
+	walk = func(v ssa.Value, flip bool, depth int) {
+		v, pos := normCond(v, true)
+		if !pos {
+			flip = !flip
+		}
+		if seen[v] || depth > 4 {
+			return
+		}
+		seen[v] = true
+		if phi, ok := v.(*ssa.Phi); ok {
+			for _, e := range phi.Edges {
+				walk(e, flip, depth+1)
+			}
+			return
+		}
+		if _, isConst := v.(*ssa.Const); isConst {
+			return
+		}
+		out = append(out, condRes{v, flip})
+	}
+	walk(v, false, 0)
+	return out
 }
 
 // atomRejects: E6 obligation — fn rejects (returns an error / the given bool)
@@ -281,8 +357,17 @@ func (c *Ctx) atomRejects(rule string, fn *ssa.Function, atom string, match func
 			}
 			for si := 0; si < 2; si++ {
 				cond, pos := normCond(iff.Cond, si == 0)
-				if match(cond, pos) && edgeLeadsStraightTo(b.Succs[si], isBad) {
+				if match(cond, pos) && edgeLeadsStraightTo(b, si, isBad) {
 					ok = true
+				}
+				// the condition is a boolean variable: the atom may be one of the values it takes
+				if _, isPhi := cond.(*ssa.Phi); isPhi {
+					for _, leaf := range condLeaves(iff.Cond) {
+						lc, lpos := normCond(leaf.v, (si == 0) != leaf.flip)
+						if match(lc, lpos) && edgeLeadsStraightTo(b, si, isBad) {
+							ok = true
+						}
+					}
 				}
 			}
 		}
